@@ -5,7 +5,7 @@ from pyvc.core import (SV, Val, VNone, VRef, VPair, VEnum, is_VNone, is_VRef, is
                        EmptySet)
 from specs import lazy
 
-PROPS = ("C12", "C05", "C06")
+PROPS = ("C12", "C05", "C06", "C13")
 
 
 def _lit_param(elem):
